@@ -116,10 +116,11 @@ JudgeCli(e) ==
   IN
   /\ Report("C05:terminates", ~e.timeout)
   \* an error message is not an answer: no status line and no witness line (error text, also clap's multi-line usage, is allowed)
-  /\ out = "refusal" => /\ Report("C05:error_exit_status_nonzero", e.exit # 0)
+  /\ (out = "refusal" \/ (out = "answer_or_refusal" /\ e.exit # 0)) =>
+                        /\ Report("C05:error_exit_status_nonzero", e.exit # 0)
                         /\ Report("C05:error_prints_no_answer", e.status = "" /\ ~e.wline)
-  /\ (out = "answer" /\ e.exit = 0 /\ inv.log = "off") => Report("C05:nothing_but_the_answer_when_logging_is_off", e.nlog = 0)
-  /\ out = "answer" =>
+  /\ (out \in {"answer", "answer_or_refusal"} /\ e.exit = 0 /\ inv.log = "off") => Report("C05:nothing_but_the_answer_when_logging_is_off", e.nlog = 0)
+  /\ (out = "answer" \/ (out = "answer_or_refusal" /\ e.exit = 0)) =>
        /\ Report("C05:answer_exit_status_zero", e.exit = 0)
        /\ e.exit = 0 =>
             /\ Report("C05:answer_shape", ~e.malformed /\ ShapeOK(inv, e.nlines, e.status, e.wline, promised))
